@@ -114,7 +114,7 @@ def tier_plan(prop, tier):
         "C09": [("plain", 8000 if q else 500000)],
         "C10": [("plain", 6000 if q else 300000)],
         "C13": [("asan", 1200 if q else 120000)],
-        "C14": [("plain", 3000 if q else 150000)],
+        "C14": [("plain", 3000 if q else 150000), ("vg", 96 if q else 2500)],
         "C15": [("plain", 300 if q else 4000)],
         "C16": [("plain", 500 if q else 6000), ("asan", 100 if q else 2500)],
         "C17": [("plain", 192 if q else 2400)],
@@ -124,6 +124,12 @@ def tier_plan(prop, tier):
 
 
 BUDGET_S = {"quick": 75, "thorough": 1100}
+
+
+def launcher(variant):
+    if variant == "vg":
+        return ["valgrind", "-q", "--tool=memcheck", "--error-limit=no", "--log-file=/dev/null"]
+    return []
 
 
 class Worker:
@@ -151,7 +157,7 @@ class Worker:
         env["ASAN_SYMBOLIZER_PATH"] = "/usr/bin/llvm-symbolizer-14"
         env["TSAN_OPTIONS"] = "external_symbolizer_path=/usr/bin/llvm-symbolizer-14"
         self.chunk = chunk
-        self.proc = subprocess.Popen([self.exe, "worker", "--prop", self.prop, "--tier", self.tier, "--seed", str(self.seed),
+        self.proc = subprocess.Popen(launcher(self.variant) + [self.exe, "worker", "--prop", self.prop, "--tier", self.tier, "--seed", str(self.seed),
                                       "--only", ",".join(map(str, chunk)), "--progress", self.prog],
                                      stdout=subprocess.PIPE, stderr=subprocess.STDOUT, env=env)
         os.set_blocking(self.proc.stdout.fileno(), False)
@@ -173,13 +179,15 @@ class Worker:
 
 def run_workers(exe, variant, prop, tier, seed, ncases, budget_s, collect):
     nworkers = min(NCPU, 8 if variant in ("asan", "tsan") else NCPU, max(1, ncases))
+    if variant == "vg":
+        stalled = 200
     scratch = tempfile.mkdtemp(prefix="verif-prog-")
     workers = []
     for w in range(nworkers):
         idx = list(range(w, ncases, nworkers))
         workers.append(Worker(exe, prop, tier, seed, idx, w, variant, scratch))
     t0 = time.time()
-    stalled_limit = 40
+    stalled_limit = 200 if variant == "vg" else 40
     timed_out = False
     while True:
         alive = False
@@ -294,10 +302,10 @@ def key_matches(key, known):
     return None
 
 
-def gate(exe, prop, tier, seed, index, alt, key, shrink=True):
+def gate(exe, prop, tier, seed, index, alt, key, shrink=True, variant="plain"):
     os.makedirs(REPLAYS, exist_ok=True)
     out = os.path.join(REPLAYS, f"{prop}-{seed}-{index}" + (f"-a{alt}" if alt is not None and alt >= 0 else "") + ".replay")
-    cmd = [exe, "gate", "--prop", prop, "--tier", tier, "--seed", str(seed), "--index", str(index), "--out", out]
+    cmd = launcher(variant) + [exe, "gate", "--prop", prop, "--tier", tier, "--seed", str(seed), "--index", str(index), "--out", out]
     if key:
         cmd += ["--key", key]
     if alt is not None and alt >= 0:
@@ -313,7 +321,7 @@ def gate(exe, prop, tier, seed, index, alt, key, shrink=True):
     if r.returncode == 0 and m:
         gkey, path, detail = m.group(1), m.group(2), m.group(4)
         # fresh-process replay must reproduce the same key
-        r2 = subprocess.run([exe, "replay", path], stdout=subprocess.PIPE, stderr=subprocess.STDOUT, env=env, timeout=600)
+        r2 = subprocess.run(launcher(variant) + [exe, "replay", path], stdout=subprocess.PIPE, stderr=subprocess.STDOUT, env=env, timeout=600)
         t2 = r2.stdout.decode(errors="replace")
         if f"key={gkey}" not in t2:
             return ("nondeterministic", gkey, path, "fresh-process replay did not reproduce: " + t2[-300:])
@@ -409,7 +417,7 @@ def check(prop, tier):
         v = min(lst, key=lambda x: x["index"])
         kk = key_matches(key, known)
         n_shrunk = sum(1 for r in reported)  # minimise the first few new keys only: each minimisation may take up to 90 s
-        st, gkey, path, detail = gate(exes[variant], prop, tier, seed, v["index"], v["alt"], key, shrink=(kk is None and n_shrunk < 3))
+        st, gkey, path, detail = gate(exes[variant], prop, tier, seed, v["index"], v["alt"], key, shrink=(kk is None and n_shrunk < 3 and variant != "vg"), variant=variant)
         if st != "ok":
             harness_problem.append(f"gate {st} for key {key} (case {v['index']}): {detail}")
             continue
